@@ -28,9 +28,12 @@ Contracts (sidecar; the spec functions below are written from the property text 
     T (a Python list length) is ENUMERATED up to a stated bound; the on-pattern is arbitrary (symbolic).
 (d) update_E / update_H / update_E_reverse / update_H_reverse (real, symbolic grid shape, fields, materials, step):
       on[t] false ==> result equals the result without the source (all components, all cells)
-    update_detector_states (real, real FieldDetector / EnergyDetector):
+    update_detector_states (real, real FieldDetector / EnergyDetector, forward and backward pass):
       on[t] false ==> every state array unchanged;
-      on[t] true  ==> rows != idx[t] unchanged and row idx[t] holds the record of this step.
+      on[t] true  ==> rows != idx[t] unchanged and (FieldDetector without interpolation) row idx[t] holds the
+                      fields of this step restricted to the detector region.
+    Together with (c) (idx strictly increasing over the active steps, onto [0, #on), #on rows allocated) this is
+    "one record per active step, in chronological order, and nothing else".
 """
 
 from __future__ import annotations
@@ -532,7 +535,6 @@ def _gate_source(srcspec, fn_name, eps, mu, sigE=None, sigH=None):
         on_t = src._is_on_at_time_step_arr.at_index((t.re,))
         inp.scalar("on[t]", on_t)
         c.cover("pre")
-        c.prove(f"{fn_name}/pre:source_is_gated_by_its_schedule", not U._source_uses_default_always_on_switch(src))
         f = getattr(U, fn_name)
         extra = (True,) if not fn_name.endswith("reverse") else ()
         a = f(t_arr, arr, with_src, cfg, *extra)
@@ -688,7 +690,9 @@ GROUPS = [
     ("rule/01x", r"^rule/01"),
     ("rule/10x", r"^rule/10"),
     ("rule/11x", r"^rule/11"),
-    ("lists/on_list", r"^on_list/"),
+    ("lists/on_list_contract", r"^on_list/(callee_contract|fixed_lists)$"),
+    ("lists/on_list_schedules_1", r"^on_list/end_to_end/(default|end_periods|periods)$"),
+    ("lists/on_list_schedules_2", r"^on_list/end_to_end/(start_end|end_duration)$"),
     ("lists/index_map_switch", r"^index_map/switch$"),
     ("lists/index_map_objects", r"^index_map/(detector|source)$"),
     ("gate/sources", r"^gate/source/"),
@@ -815,8 +819,11 @@ def _replay_lists(witness):
         off = attempt % 17 == 16
         sw = OnOffSwitch(**p, interval=interval, is_always_off=off)
         exp = [bool(_py_active(p, off, t, dt)) and t % interval == 0 for t in range(T)]
-        on = sw.calculate_on_list(num_total_time_steps=T, time_step_duration=dt)
-        idx = sw.calculate_time_step_to_on_arr_idx(num_total_time_steps=T, time_step_duration=dt)
+        try:
+            on = sw.calculate_on_list(num_total_time_steps=T, time_step_duration=dt)
+            idx = sw.calculate_time_step_to_on_arr_idx(num_total_time_steps=T, time_step_duration=dt)
+        except Exception as e:  # noqa: BLE001
+            return True, f"switch {p} interval={interval} always_off={off}, T={T}, dt={dt:.3e}: a well-specified schedule, but the real calculate_on_list raises {type(e).__name__}({e})"
         det = fdtdx.FieldDetector(name=f"d{attempt}", switch=sw).place_on_grid(((0, 2), (0, 2), (0, 2)), cfg, None)
         src = fdtdx.PointDipoleSource(name=f"s{attempt}", wave_character=WaveCharacter(wavelength=1e-6), polarization=0, switch=sw).place_on_grid(((0, 1), (0, 1), (0, 1)), cfg, None)
         ispec = _index_spec_concrete(exp)
@@ -971,7 +978,7 @@ FUNCTIONS = [
     "fdtdx.objects.sources.source.Source.place_on_grid / _update_on_arrays / is_on_at_time_step",
     "fdtdx.fdtd.update.update_E / update_H / update_E_reverse / update_H_reverse (source gating)",
     "fdtdx.fdtd.update._source_uses_default_always_on_switch",
-    "fdtdx.fdtd.update.update_detector_states (detector gating)",
+    "fdtdx.fdtd.update.update_detector_states (detector gating, forward and backward detectors)",
     "fdtdx.objects.detectors.field.FieldDetector.update (write index)",
     "fdtdx.objects.detectors.energy.EnergyDetector.update (write index)",
 ]
@@ -991,7 +998,7 @@ ASSUMPTIONS = [
     "the comparison t*dt <= end is over the reals (floating-point ties at window edges not modelled)",
     "PhasorDetector's additional DFT sub-sampling of its on-list and the detectors' record contents are outside this property (C17/C15); detector write index is proved for FieldDetector and EnergyDetector",
 ]
-MIN_OBLIGATIONS = {"quick": 3000, "thorough": 10000}
+MIN_OBLIGATIONS = {"quick": 20000, "thorough": 100000}
 LEVEL_TEXT = (
     "Deductive proof, for all real schedule parameter values, all 2^7 None-patterns, every integer step t and step duration, that the real is_on_at_time_step "
     "returns exactly the documented window rule (and raises exactly on conflicting specifications); for every total step count up to the stated bound and ARBITRARY "
